@@ -6,6 +6,7 @@ pub mod c08_kernels;
 pub mod c08_vec;
 pub mod c08_enc;
 pub mod c09;
+pub mod c09_big;
 pub mod probe_be;
 pub mod c11_dft;
 pub mod c18;
